@@ -569,7 +569,7 @@ def run_daemon(desc):
             rx += peer.drain(quiet=1.0, limit=20)
             replies = [json.loads(x) for x in d.lines('replies')]
         except daemon.Inconclusive as e:
-            res.inconclusive.append('daemon: ' + str(e)[:400])
+            daemon.skipped(res, str(e))
             continue
         except rw.RefError as e:
             res.violation('C17/undecodable-update', str(e), wit, cls)
